@@ -133,6 +133,73 @@ static void extern_products(Ctx &c, int reps, double alpha) {
     delete_TGswSample(Aback); delete_TGswSampleFFT(AF); delete_TGswSample(A);
 }
 
+// the remaining public TGSW / TLWE helpers that build or transform the operands of external products
+static void helpers(Ctx &c, int reps) {
+    const int k = c.k, l = c.l;
+    TGswSample *A = new_TGswSample(c.tg), *B = new_TGswSample(c.tg), *C = new_TGswSample(c.tg);
+    TGswSampleFFT *AF = new_TGswSampleFFT(c.tg);
+    IntPolynomial *m = new_IntPolynomial(N), *p = new_IntPolynomial(N);
+    TLweSample *x = new_TLweSample(c.tl), *y = new_TLweSample(c.tl), *y0 = new_TLweSample(c.tl);
+    TLweSampleFFT *xf = new_TLweSampleFFT(c.tl), *yf = new_TLweSampleFFT(c.tl);
+    std::vector<U> ph, ph0, phx, want, t; std::vector<int32_t> tmp(N);
+    auto same_tgsw = [&](const TGswSample *u, const TGswSample *v) { for (int r = 0; r < c.tg->kpl; r++) for (int i = 0; i <= k; i++) if (memcmp(u->all_sample[r].a[i].coefsT, v->all_sample[r].a[i].coefsT, 4 * N)) return false; return true; };
+    for (int rep = 0; rep < reps; rep++) {
+        // Clear / AddH / AddMuIntH / AddMuH / NoiselessTrivial are consistent with each other (exact integer operations)
+        int32_t mi = rep == 0 ? 1 : (int32_t) rng.range(-3, 3);
+        VH_OP("tGswClear/AddH/AddMuIntH:%s", c.cfg.c_str());
+        build_noiseless(c, A, m); tGswClear(A, c.tg);
+        out.evaluations++;
+        for (int r = 0; r < c.tg->kpl; r++) for (int i = 0; i <= k; i++) for (int j = 0; j < N; j++) if (A->all_sample[r].a[i].coefsT[j]) { out.viol("extprod:tGswClear-not-zero", J().s("config", c.cfg)); r = c.tg->kpl; i = k + 1; break; }
+        tGswAddMuIntH(A, mi, c.tg);
+        for (int j = 0; j < N; j++) m->coefs[j] = 0; m->coefs[0] = mi;
+        tGswNoiselessTrivial(B, m, c.tg);
+        tGswClear(C, c.tg); for (int q = 0; q < (mi > 0 ? mi : 0); q++) tGswAddH(C, c.tg);
+        out.evaluations++;
+        if (!same_tgsw(A, B)) out.viol("extprod:tGswAddMuIntH-vs-NoiselessTrivial", J().s("config", c.cfg).i("m", mi));
+        if (mi > 0 && !same_tgsw(A, C)) out.viol("extprod:tGswAddH-vs-AddMuIntH", J().s("config", c.cfg).i("m", mi));
+        // FFT-domain AddH equals the coefficient-domain one
+        VH_OP("tGswFFTAddH:%s", c.cfg.c_str());
+        tGswFFTClear(AF, c.tg); tGswFFTAddH(AF, c.tg); tGswFromFFTConvert(B, AF, c.tg); tGswClear(C, c.tg); tGswAddH(C, c.tg);
+        out.evaluations++;
+        for (int r = 0; r < c.tg->kpl; r++) for (int i = 0; i <= k; i++) for (int j = 0; j < N; j++) { int32_t d = B->all_sample[r].a[i].coefsT[j] - C->all_sample[r].a[i].coefsT[j]; if (d > 1 || d < -1) { out.viol("extprod:tGswFFTAddH", J().s("config", c.cfg).i("row", r).i("coef", j).i("diff", d)); r = c.tg->kpl; i = k + 1; break; } }
+        // (X^a - 1) * TGSW sample: row-wise exact
+        fill_message(m, 4); build_noiseless(c, A, m);
+        int a = rep % 4 == 0 ? 0 : rep % 4 == 1 ? 2 * N - 1 : (int) rng.below(2 * N);
+        VH_OP("tGswMulByXaiMinusOne:%s", c.cfg.c_str());
+        tGswMulByXaiMinusOne(B, a, A, c.tg);
+        out.evaluations++;
+        for (int r = 0; r < c.tg->kpl; r++) for (int i = 0; i <= k; i++) {
+            ref_mul_xai(t, a, A->all_sample[r].a[i].coefsT, N);
+            for (int j = 0; j < N; j++) if ((U) B->all_sample[r].a[i].coefsT[j] != t[j] - (U) A->all_sample[r].a[i].coefsT[j]) { out.viol("extprod:tGswMulByXaiMinusOne", J().s("config", c.cfg).i("a", a).i("row", r).i("poly", i).i("coef", j)); r = c.tg->kpl; i = k + 1; break; }
+        }
+        // TLWE: result += p * sample (FFT products per component): phases add up within the FFT tolerance of small integer polynomials
+        for (int j = 0; j < N; j++) p->coefs[j] = (int32_t) rng.range(-8, 8);
+        fill_tlwe(c, x, rep % 3); fill_tlwe(c, y0, (rep + 1) % 3); tLweCopy(y, y0, c.tl); y->current_variance = 0.25; x->current_variance = 0.5;
+        ref_tlwe_phase(phx, x, c.key->key, N, k); ref_tlwe_phase(ph0, y0, c.key->key, N, k);
+        VH_OP("tLweAddMulRTo:%s", c.cfg.c_str());
+        tLweAddMulRTo(y, p, x, c.tl);
+        ref_tlwe_phase(ph, y, c.key->key, N, k);
+        for (int j = 0; j < N; j++) tmp[j] = (int32_t) phx[j];
+        ref_negacyclic(want, p->coefs, tmp.data(), N); for (int j = 0; j < N; j++) want[j] += ph0[j];
+        check_phase(c, "tLweAddMulRTo", ph, want, 2.0 * (1 + k * N) + 1, J().i("p_inf", 8));
+        // FFT-domain TLWE helpers: conversion round trip, clear, accumulate
+        VH_OP("tLweToFFTConvert/FromFFTConvert:%s", c.cfg.c_str());
+        tLweToFFTConvert(xf, x, c.tl); tLweFromFFTConvert(y, xf, c.tl);
+        out.evaluations++;
+        for (int i = 0; i <= k; i++) for (int j = 0; j < N; j++) { int32_t d = y->a[i].coefsT[j] - x->a[i].coefsT[j]; if (d > 1 || d < -1) { out.viol("extprod:tlwe-fft-roundtrip", J().s("config", c.cfg).i("poly", i).i("coef", j).i("diff", d)); i = k + 1; break; } }
+        VH_OP("tLweFFTClear/AddMulRTo:%s", c.cfg.c_str());
+        { LagrangeHalfCPolynomial *pf = new_LagrangeHalfCPolynomial(N); IntPolynomial_ifft(pf, p);
+          tLweFFTClear(yf, c.tl); tLweFFTAddMulRTo(yf, pf, xf, c.tl); tLweFromFFTConvert(y, yf, c.tl);
+          ref_tlwe_phase(ph, y, c.key->key, N, k); ref_negacyclic(want, p->coefs, tmp.data(), N);
+          check_phase(c, "tLweFFTAddMulRTo", ph, want, 2.0 * (1 + k * N) + 1, J().i("p_inf", 8));
+          delete_LagrangeHalfCPolynomial(pf); }
+        char cell[128]; snprintf(cell, sizeof cell, "%s:helpers:rep%d", c.cfg.c_str(), rep % 4); out.cell(cell);
+    }
+    (void) l;
+    delete_TLweSampleFFT(yf); delete_TLweSampleFFT(xf); delete_TLweSample(y0); delete_TLweSample(y); delete_TLweSample(x);
+    delete_IntPolynomial(p); delete_IntPolynomial(m); delete_TGswSampleFFT(AF); delete_TGswSample(C); delete_TGswSample(B); delete_TGswSample(A);
+}
+
 static const char *ecls_name[] = {"all-zero", "all-2N-1", "single-nonzero", "random", "mixed-0-and-2N-1"};
 
 static void blind_rotations(Ctx &c, int n, int reps, double alpha) {
@@ -205,6 +272,7 @@ int main(int argc, char **argv) {
     tGswKeyGen(c.key);
     { char b[64]; snprintf(b, sizeof b, "k%d.l%d.Bg%d", c.k, c.l, c.Bgbit); c.cfg = b; }
     extern_products(c, args.i("reps", 30), alpha);
+    helpers(c, args.i("hreps", 8));
     std::stringstream ns(args.s("n", "1,4,16")); std::string t;
     while (std::getline(ns, t, ',')) blind_rotations(c, atoi(t.c_str()), args.i("rreps", 15), alpha);
     out.stat(J().s("kind", "extprod").s("config", c.cfg).d("worst_error_over_bound", worst_ratio).d("det_bound_units_m1", c.det_bound_units(1)).d("noisy_sigma_units", c.noisy_sigma_units(alpha)));
